@@ -758,6 +758,26 @@ std::string shrink_text(const std::string &orig, const std::function<Result(cons
   return Case::parse(join(cur)).ser();
 }
 
+// ---------------------------------------------------------------- sanitizer death hook for in-process enumerators
+// Properties that evaluate millions of cases in-process (C16, C17) cannot fork per case.  They keep the case being
+// evaluated in cheap globals and register g_death_cb; when a sanitizer aborts the worker, the hook files that case
+// as fail.case so that the driver reports a violation with a replay instead of a harness error.
+extern std::string g_death_dir;
+extern void (*g_death_cb)(std::string &case_text, std::string &msg);
+#ifdef VF_MAIN
+std::string g_death_dir;
+void (*g_death_cb)(std::string &, std::string &) = nullptr;
+extern "C" void __sanitizer_set_death_callback(void (*)(void));
+static void vf_on_sanitizer_death() {
+  if (!g_death_cb || g_death_dir.empty()) return;
+  std::string c, m;
+  g_death_cb(c, m);
+  if (c.empty()) return;
+  write_file(g_death_dir + "/fail.case", c);
+  write_file(g_death_dir + "/fail.msg", "sanitizer report while evaluating this case in-process (see the worker log): " + m);
+}
+#endif
+
 // ---------------------------------------------------------------- per-property entry points
 // A property TU provides:
 //   struct Case { std::string ser() const; static Case parse(const std::string&); };
@@ -832,6 +852,8 @@ int vf_main(int argc, char **argv, const char *prop_id, std::function<Case()> ge
 
   Stats stats;
   int rc_ret = 0;
+  g_death_dir = o.outdir;
+  __sanitizer_set_death_callback(vf_on_sanitizer_death);
   if (o.mode == "rc") {
     char params[256];
     snprintf(params, sizeof params, "seed=%llu max_success=%lld max_size=%d max_discard_ratio=50 noshrink=1",
